@@ -481,10 +481,32 @@ def gen_scene(rng, quick):
 
     coords = [[[coord() for _ in range(3)] for _ in range(n_atoms)] for _ in range(n_conf)]
     charges = [[f32((rng.uniform() * 2 - 1)) for _ in range(n_atoms)] for _ in range(n_conf)]
+    zero_pattern = rng.weighted([("none", 3), ("subset", 3), ("all", 1), ("single-nonzero", 1)])
+    if zero_pattern != "none":
+        # atoms whose charge is exactly 0.0 in every conformer: they still occupy space and can still be the nearest atom
+        keep = {rng.below(n_atoms)} if zero_pattern == "single-nonzero" else set() if zero_pattern == "all" else \
+            {k for k in range(n_atoms) if rng.chance(1, 2)}
+        charges = [[q if k in keep else 0.0 for k, q in enumerate(row)] for row in charges]
     weights = [rng.choice([1.0, 1.0, 0.5, 2.0, 0.25 + rng.uniform()]) for _ in range(n_conf)]
+    repeated = None
+    if rng.chance(1, 4):
+        # the same geometry listed more than once, each listing with its own weight (and its own charges); one copy may differ
+        # from the other only by the sign of a zero coordinate
+        while n_conf < 3:       # two listings of one geometry and at least one other geometry (else the weights cancel out)
+            n_conf += 1
+            coords.append([[coord() for _ in range(3)] for _ in range(n_atoms)])
+            charges.append(list(charges[0]))
+            weights.append(rng.choice([1.0, 0.5, 2.0]))
+        i0 = rng.below(n_conf)
+        j0 = rng.choice([k for k in range(n_conf) if k != i0])
+        if rng.chance(1, 2):
+            coords[i0][0][rng.below(3)] = 0.0
+        coords[j0] = [[(-0.0 if (x == 0.0 and rng.chance(1, 2)) else x) for x in a] for a in coords[i0]]
+        weights[i0], weights[j0] = rng.choice([(1.0, 3.0), (0.25, 2.0), (2.0, 0.5), (1.0, 0.125)])
+        repeated = [i0, j0]
     far = None
     if zero_weight:
-        far = rng.below(n_conf)
+        far = rng.choice([k for k in range(n_conf) if not repeated or k not in repeated] or [0])
         weights[far] = rng.choice([0.0, float(np.exp(-800.0)), 0.0, 5e-324])     # 5e-324: the smallest weight that still counts
         shift = rng.choice([2.0 * extent + 2.0, 2.0 * extent + 3.5])
         coords[far] = [[f32(x + shift), y, z] for x, y, z in coords[far]]
@@ -503,7 +525,8 @@ def gen_scene(rng, quick):
         gspec = None
     scene = {"section": "scene", "elements": elements, "coords": coords, "charges": charges, "weights": weights,
              "grid_style": gstyle, "grid": grid, "grid_spec": gspec, "style": style,
-             "max_dist": rng.choice([0.5, 1.0, 1.7, 2.0, 2.5, 3.3]), "eps": rng.choice([0.0, 0.25, 0.5, 1.0])}
+             "max_dist": rng.choice([0.5, 1.0, 1.7, 2.0, 2.5, 3.3]), "eps": rng.choice([0.0, 0.25, 0.5, 1.0]),
+             "zero_charges": zero_pattern, **({"repeated": repeated} if repeated else {})}
     if n_atoms >= 2 and rng.chance(1, 3):
         # a second ensemble of the same composition whose atoms come in another order (an isomer as far as the formula goes),
         # evaluated in the same process right before / after this one
@@ -555,11 +578,17 @@ def shift_scene(scene, rng, shift=None):
 
 def gen_big_scene(rng, quick, i):
     """sizes above any plausible internal batch / block size: many grid points, many atoms, many conformers"""
-    kind = ["pairs", "grid", "grid", "atoms", "conformers"][i % 5]
+    kind = (["pairs", "grid", "atomcount:129", "atomcount", "conformers"] if quick else
+            ["pairs", "grid", "atomcount:129", "atomcount", "conformers", "grid", "atoms", "atomcount", "atomcount:257", "atomcount:32769"])[i % (5 if quick else 10)]
+    count = None
+    if kind.startswith("atomcount"):
+        # numbers of atoms around the limits of narrow integer types; the LAST atom is the nearest one for some grid points
+        count = int(kind.split(":")[1]) if ":" in kind else rng.choice([127, 128, 129, 130, 255, 256, 257])
+        kind = "atoms"
     s = gen_scene(rng, quick)
-    n_atoms = rng.range(2, 6) if kind != "atoms" else rng.range(100, 260)
+    n_atoms = rng.range(2, 6) if kind != "atoms" else (count or rng.range(100, 260))
     n_conf = rng.range(17, 70) if kind == "conformers" else rng.range(20, 40) if kind == "pairs" else rng.range(1, 3)
-    extent = 3.0 if kind != "atoms" else 6.0
+    extent = 3.0 if kind != "atoms" else (6.0 if n_atoms < 1000 else 30.0)
     s["elements"] = [rng.choice(ELEMENTS) for _ in range(n_atoms)]
     s["coords"] = [[[f32((rng.uniform() * 2 - 1) * extent) for _ in range(3)] for _ in range(n_atoms)] for _ in range(n_conf)]
     s["charges"] = [[f32(rng.uniform() * 2 - 1) for _ in range(n_atoms)] for _ in range(n_conf)]
@@ -581,6 +610,11 @@ def gen_big_scene(rng, quick, i):
     idxs = [0, npts - 1, npts - 2] + [rng.below(npts) for _ in range(npts // 32)]
     for j in idxs:
         g[j] = flat[rng.below(len(flat))] + np.array([0.3, 0.0, 0.0])
+    if count:
+        last = np.array(s["coords"], dtype=np.float64)[:, -1, :]
+        for j in range(min(12, npts)):
+            g[(7 * j + 3) % npts] = last[j % len(last)] + np.array([0.0, 0.05 * (j % 3), 0.02])
+        s["atom_count"] = count
     s["grid_style"], s["grid_spec"] = "random32", None
     s["grid"] = g.astype(np.float32).astype(np.float64).tolist()
     s["big"] = kind
@@ -701,6 +735,12 @@ def check_scenes(ctx, n_cases, corpus, big=0):
         ctx.count("scene-grid-points" + ("<=400" if grid.shape[0] <= 400 else "<=4096" if grid.shape[0] <= 4096 else ">4096"))
         if s.get("phase"):
             ctx.count(f"scene-second-query-after-edit:{s['then']['edit']}")
+        if s.get("zero_charges", "none") != "none":
+            ctx.count(f"scene-exact-zero-charges:{s['zero_charges']}")
+        if s.get("repeated"):
+            ctx.count("scene-repeated-conformer-with-other-weight")
+        if s.get("atom_count"):
+            ctx.count(f"scene-atom-count={s['atom_count']}")
         if s.get("shift"):
             ctx.count(f"scene-shifted-by:{max(abs(x) for x in s['shift']):g}")
         if s.get("big") == "pairs":
@@ -908,7 +948,9 @@ def run(ctx):
                 "strided/transposed/reversed/column-strided/mixed-dtype arguments; non-trivial = a non-contiguous argument. "
                 "Grids: dyadic boxes (exact comparison) and general float boxes (tolerance; width/spacing within 1e-4 of an "
                 "integer skipped); non-trivial = more than one point. Scenes: 1..5, 11..30 or 31..60 atoms (beyond one KD-tree leaf of 10 points) x 1..4 conformers, rectangular or "
-                "random float32/float64 grids; two thirds of the scenes are translated as a whole by 35, 410, 1600 or 1e4 Å (binary32 coordinates); "
+                "random float32/float64 grids; a quarter of the scenes list one geometry twice with different weights (possibly differing in the sign of a "
+                "zero), half have atoms whose charge is exactly 0 in every conformer (a subset / all / all but one); large scenes with 127..130, 255..257 "
+                "(thorough: 32769) atoms whose last atom is nearest to some grid points; two thirds of the scenes are translated as a whole by 35, 410, 1600 or 1e4 Å (binary32 coordinates); "
                 "one large scene per quick run has >= 2^17 (conformer, grid point) pairs with 20..40 non-superimposed conformers; "
                 "a third of the scenes are followed or preceded, in the same process, by an ensemble of the same formula "
                 "whose elements come in another atom order; a third of the scenes have a conformer of weight exactly 0 (explicit / underflowed) or 5e-324 placed "
@@ -930,7 +972,7 @@ def run(ctx):
     check_kernels(ctx, 250 if q else 8000, corpus)
     check_prebuilt(ctx, 80 if q else 2500)
     check_grids(ctx, 60 if q else 1500, corpus)
-    check_scenes(ctx, 24 if q else 600, corpus, big=5 if q else 30)
+    check_scenes(ctx, 24 if q else 450, corpus, big=5 if q else 20)
 
 
 def replay(ctx, path):
